@@ -6,7 +6,7 @@
    nothing left to assume but their size against the threshold. *)
 From Coq Require Import List NArith ZArith Bool Arith Lia.
 Import ListNotations.
-From Indi Require Import Base.Sx Buffer.Model Buffer.Props Buffer.Junk Buffer.Framing Buffer.Run Buffer.Concrete
+From Indi Require Import Base.Sx Buffer.Model Buffer.Props Buffer.Junk Buffer.Framing Buffer.Run Buffer.Concrete Buffer.Multi
   Msg.Registry Msg.RegOk Msg.Equality Msg.Model Msg.Codec Xml.Lex Xml.Print Xml.RoundTrip Xml.Opener Xml.FirstTag Generated.RegistryData.
 Local Open Scope N_scope.
 
@@ -512,4 +512,19 @@ Proof.
   intros Hs E O.
   pose proof (framing msg concrete_parse live_tags thr live_tags_clean concrete_parse_needs_opener pieces l [] u (stream_ok_wf thr l Hs) E O) as F.
   destruct (feed msg concrete_parse live_tags thr [] pieces) as [outs dfin]. exact (proj2 F).
+Qed.
+
+(* several connections served by one process: the connection whose own pieces cut an accepted stream is framed as
+   if it were alone, whatever arrives on the others, in whatever order, and wherever their streams end *)
+Theorem each_connection_is_framed_whatever_the_others_receive (thr : nat -> option nat) arr l c :
+  stream_ok (thr c) l -> List.concat (of_conn c arr) = flatten msg l ->
+  let outs := of_conn c (fst (serve msg concrete_parse live_tags thr (fun _ => []) arr)) in
+  Forall (fun om => fst om = Done) outs /\ deliveries msg outs = msgs msg l.
+Proof.
+  intros Hs E. cbv zeta.
+  rewrite (proj1 (serve_isolates msg concrete_parse live_tags thr arr (fun _ => []) c)).
+  cbv beta.
+  pose proof (any_accepted_stream_is_framed (thr c) (of_conn c arr) l Hs E) as H.
+  unfold str in *.
+  destruct (feed msg concrete_parse live_tags (thr c) [] (of_conn c arr)) as [outs dfin]. exact H.
 Qed.
